@@ -109,5 +109,13 @@ var lineNo = regexp.MustCompile(`(line|Line) ?[0-9]+(:[0-9]+)?`)
 // normOut strips the source positions from what a run printed: the statement
 // compares output and outcome "ignoring source line numbers in messages".
 func normOut(s string) string {
-	return lineNo.ReplaceAllString(s, "line N")
+	s = lineNo.ReplaceAllString(s, "line N")
+
+	// call frame listings: "  at: main '<stdin>'   71  (block 0)"
+	return frameLine.ReplaceAllStringFunc(s, func(l string) string { return anyDigits.ReplaceAllString(l, "N") })
 }
+
+var (
+	frameLine = regexp.MustCompile(`(?m)^\s*at: .*$`)
+	anyDigits = regexp.MustCompile(`[0-9]+`)
+)
